@@ -304,3 +304,103 @@ def check_routes(ck, case, rng, impl_path, failures, bucket="routes"):
             ck.case(key=("route", route, case["newick"], case["subst"]["kind"]), bucket=f"{bucket}/{route}")
             if v != v0 and not (abs(v - v0) <= 1e-13 * max(1.0, abs(v0))) or p != p0:
                 failures.append({"case": case, "route": route, "baseline": v0, "value": v, "path": list(p), "baseline_path": list(p0)})
+
+
+# ------------------------------------------------------------------------------------------------------------------
+# ORDER established at construction vs order at use: the live containers (Alignment and Taxa are UserLists) are
+# MUTATED between building one object and building the next one downstream
+MUTATIONS = ["aln.reverse", "aln.sort-by-sequence", "aln.pop-append", "aln.slice-assign", "aln.insert-front",
+             "taxa.sort@before-tree", "taxa.reverse@before-tree", "taxa.sort@after-tree", "taxa.reverse@after-tree",
+             "taxa.pop-append@after-tree", "both@after-tree", "seqs-list.reverse@after-alignment", "aln.reverse@after-sitepattern",
+             "taxa.reverse@after-likelihood"]
+
+
+def mutate_alignment(aln, how, rng):
+    if how == "aln.reverse":
+        aln.reverse()
+    elif how == "aln.sort-by-sequence":
+        aln.sort(key=lambda s: (s.sequence, s.taxon))
+    elif how == "aln.pop-append":
+        aln.append(aln.pop(0))
+    elif how == "aln.slice-assign":
+        items = list(aln)
+        rng.shuffle(items)
+        aln[:] = items
+    elif how == "aln.insert-front":
+        aln.insert(0, aln.pop())
+
+
+def mutation_route(case, how, rng):
+    """build taxa -> alignment -> tree model -> site pattern -> likelihood with the Python constructors, mutating the live
+    containers at the point `how` names. Returns the model (nucleotide / amino-acid data, no column selection)."""
+    import torch
+    from torchtree.core.utils import process_object
+    from torchtree.evolution.alignment import Alignment, Sequence
+    from torchtree.evolution.datatype import AminoAcidDataType, NucleotideDataType
+    from torchtree.evolution.site_pattern import SitePattern
+    from torchtree.evolution.taxa import Taxa, Taxon
+    from torchtree.evolution.tree_likelihood import TreeLikelihoodModel
+
+    torch.set_default_dtype(torch.float64)
+    spec = G.build_spec(case)
+    if case["datatype"] not in ("nucleotide", "aa") or spec["site_pattern"].get("indices"):
+        return None
+    taxa = Taxa("taxa", [Taxon(t["id"], dict(t.get("attributes", {}))) for t in spec["tree_model"]["taxa"]["taxa"]])
+    dt = NucleotideDataType(None) if case["datatype"] == "nucleotide" else AminoAcidDataType("dt")
+    seq_list = [Sequence(x["taxon"], x["sequence"]) for x in spec["site_pattern"]["alignment"]["sequences"]]
+    aln = Alignment("aln", seq_list, taxa, dt)
+    if how == "seqs-list.reverse@after-alignment":
+        seq_list.reverse()  # the list object that was handed to the Alignment
+    if how.startswith("aln.") and "@" not in how:
+        mutate_alignment(aln, how, rng)
+    if how == "taxa.sort@before-tree":
+        taxa.sort(key=lambda t: t.id)
+    if how == "taxa.reverse@before-tree":
+        taxa.reverse()
+    dic = {"taxa": taxa}
+    tspec = copy.deepcopy(spec["tree_model"])
+    tspec["taxa"] = "taxa"
+    tree_model = process_object(tspec, dic)
+    if how == "taxa.sort@after-tree":
+        taxa.sort(key=lambda t: t.id)
+    if how == "taxa.reverse@after-tree":
+        taxa.reverse()
+    if how == "taxa.pop-append@after-tree":
+        taxa.append(taxa.pop(0))
+    if how == "both@after-tree":
+        taxa.sort(key=lambda t: t.id, reverse=True)
+        aln.reverse()
+    sp = SitePattern("sp", aln)
+    if how == "aln.reverse@after-sitepattern":
+        aln.reverse()
+    subst = process_object(copy.deepcopy(spec["substitution_model"]), dic)
+    site = process_object(copy.deepcopy(spec["site_model"]), dic)
+    clock = process_object(copy.deepcopy(spec["branch_model"]), dic) if "branch_model" in spec else None
+    m = TreeLikelihoodModel("like", sp, tree_model, subst, site, clock, bool(spec.get("use_ambiguities", False)), bool(spec.get("use_tip_states", False)))
+    if how == "taxa.reverse@after-likelihood":
+        taxa.reverse()
+        aln.reverse()
+    return m
+
+
+def check_mutations(ck, case, rng, failures, bucket="order-mutation"):
+    """every mutation point against the brute-force oracle on the data BY NAME"""
+    try:
+        base = G.build_model(case)
+        want, _ = G.oracle_loglik(case, base)
+    except Exception as e:  # noqa: BLE001
+        ck.mismatch("implementation raised", {"case": case, "error": repr(e)[:300]})
+        return
+    for how in MUTATIONS:
+        try:
+            m = mutation_route(case, how, rng)
+            if m is None:
+                return
+            v = float(m().reshape(-1)[0])
+        except Exception as e:  # noqa: BLE001
+            failures.append({"case": case, "mutation": how, "oracle": want, "value": None, "error": repr(e)[:300]})
+            ck.case(key=("mutation", how, case["newick"]), bucket=f"{bucket}/{how}/raised")
+            continue
+        ck.case(key=("mutation", how, case["newick"], tuple(case["taxa"])), bucket=f"{bucket}/{how}")
+        if not (abs(v - want) <= 1e-9 * max(1.0, abs(want))):
+            failures.append({"case": case, "mutation": how, "oracle": want, "value": v})
